@@ -16,6 +16,23 @@ fn main() {
         eprintln!("usage: vcheck run|worker|saved|replay <ID> ...");
         std::process::exit(2)
     };
+    if args.len() >= 3 && args[1] == "reports" {
+        // debug: `vcheck reports <seed>` prints the four reports for a generated stream
+        use vlab::stream::{self, c14};
+        let seed: u64 = args[2].parse().unwrap();
+        let mut ta = vlab::tape::Tape::new(vlab::tape::tape_from_seed(seed, 500));
+        let p = stream::SProfile { decorate: args.len() > 3, p_dup_names: 10, ..stream::SProfile::default() };
+        let tree = stream::gen_tree(&mut ta, &p);
+        let mut tb = vlab::tape::Tape::new(vlab::tape::tape_from_seed(seed ^ 77, 500));
+        let st = stream::linearise(&mut tb, &tree, true, true);
+        let o = c14::Opts { verbosity: 0, show_output: false, report_time: false, junit_verbose: false };
+        let r = c14::produce(&st, &o);
+        println!("===== BASIC\n{:?}\n===== LIBTEST\n{:?}\n===== JSON\n{:?}\n===== JUNIT\n{:?}", r.basic, r.libtest, r.json, r.junit);
+        for v in c14::check_all(&st, &o) {
+            println!("VIOL {}: {}", v.sig, v.msg);
+        }
+        return;
+    }
     if args.len() < 3 {
         usage();
     }
